@@ -29,6 +29,7 @@ def main():
     ap.add_argument("--tier", default="quick")
     ap.add_argument("--checks")
     ap.add_argument("--all", action="store_true")
+    ap.add_argument("--related", action="store_true", help="all checks of the library group or of the daemon/executor group, by the files touched")
     ap.add_argument("names", nargs="*")
     a = ap.parse_args()
     sd = os.path.join(VERIF, "seeded")
@@ -42,6 +43,13 @@ def main():
         d = os.path.join(sd, n)
         meta = json.load(open(os.path.join(d, "meta.json")))
         checks = a.checks.split(",") if a.checks else (ALL if a.all else [meta["property"]])
+        if a.related:
+            files = " ".join(meta.get("files", []))
+            daemon = [c for c in ("C04", "C06", "C11", "C12", "C13", "C14")]
+            lib = [c for c in ALL if c not in daemon]
+            checks = daemon if ("echsd.c" in files or "echsx.c" in files) else lib + (["C14"] if "instant.c" in files or "dt-strpf.c" in files else [])
+            if meta["property"] not in checks:
+                checks = [meta["property"]] + checks
         res = {"name": n, "property": meta["property"], "tier": a.tier, "checks": {}}
         ap_ = sh(["git", "-C", REPO, "apply", os.path.join(d, "patch.diff")])
         if ap_.returncode:
@@ -62,7 +70,7 @@ def main():
         finally:
             sh(["git", "-C", REPO, "checkout", "--", "."])
             sh(["rm", "-rf", os.path.join("/tmp", "seeded-evid-%d" % os.getpid())])
-        json.dump(res, open(os.path.join(d, "result.json"), "w"), indent=1)
+        json.dump(res, open(os.path.join(d, "result-related.json" if a.related else "result.json"), "w"), indent=1)
     still = sh(["git", "-C", REPO, "status", "--porcelain", "--untracked-files=no"]).stdout.strip()
     if still:
         print("WARNING: %s not clean after the run: %s" % (REPO, still))
